@@ -473,3 +473,158 @@ impl SubscriptionBuiltinTopicData {
         &self.type_consistency
     }
 }
+
+#[cfg(feature = "verif_hooks")]
+#[doc(hidden)]
+#[allow(clippy::too_many_arguments, missing_docs)]
+mod verif_hooks_ctor {
+    use super::*;
+
+    impl ParticipantBuiltinTopicData {
+        /// Verification hook: construct a value from all of its fields.
+        pub fn verif_new(key: BuiltInTopicKey, user_data: UserDataQosPolicy) -> Self {
+            Self { key, user_data }
+        }
+    }
+
+    impl TopicBuiltinTopicData {
+        /// Verification hook: construct a value from all of its fields.
+        pub fn verif_new(
+            key: BuiltInTopicKey,
+            name: &str,
+            type_name: &str,
+            type_information: Option<TypeInformation>,
+            durability: DurabilityQosPolicy,
+            deadline: DeadlineQosPolicy,
+            latency_budget: LatencyBudgetQosPolicy,
+            liveliness: LivelinessQosPolicy,
+            reliability: ReliabilityQosPolicy,
+            transport_priority: TransportPriorityQosPolicy,
+            lifespan: LifespanQosPolicy,
+            destination_order: DestinationOrderQosPolicy,
+            history: HistoryQosPolicy,
+            resource_limits: ResourceLimitsQosPolicy,
+            ownership: OwnershipQosPolicy,
+            topic_data: TopicDataQosPolicy,
+            representation: DataRepresentationQosPolicy,
+        ) -> Self {
+            Self {
+                key,
+                name: alloc::string::String::from(name).into(),
+                type_name: alloc::string::String::from(type_name).into(),
+                type_information,
+                durability,
+                deadline,
+                latency_budget,
+                liveliness,
+                reliability,
+                transport_priority,
+                lifespan,
+                destination_order,
+                history,
+                resource_limits,
+                ownership,
+                topic_data,
+                representation,
+            }
+        }
+    }
+
+    impl PublicationBuiltinTopicData {
+        /// Verification hook: construct a value from all of its fields.
+        pub fn verif_new(
+            key: BuiltInTopicKey,
+            participant_key: BuiltInTopicKey,
+            topic_name: &str,
+            type_name: &str,
+            type_information: Option<TypeInformation>,
+            durability: DurabilityQosPolicy,
+            deadline: DeadlineQosPolicy,
+            latency_budget: LatencyBudgetQosPolicy,
+            liveliness: LivelinessQosPolicy,
+            reliability: ReliabilityQosPolicy,
+            lifespan: LifespanQosPolicy,
+            user_data: UserDataQosPolicy,
+            ownership: OwnershipQosPolicy,
+            ownership_strength: OwnershipStrengthQosPolicy,
+            destination_order: DestinationOrderQosPolicy,
+            presentation: PresentationQosPolicy,
+            partition: PartitionQosPolicy,
+            topic_data: TopicDataQosPolicy,
+            group_data: GroupDataQosPolicy,
+            representation: DataRepresentationQosPolicy,
+        ) -> Self {
+            Self {
+                key,
+                participant_key,
+                topic_name: alloc::string::String::from(topic_name).into(),
+                type_name: alloc::string::String::from(type_name).into(),
+                type_information,
+                durability,
+                deadline,
+                latency_budget,
+                liveliness,
+                reliability,
+                lifespan,
+                user_data,
+                ownership,
+                ownership_strength,
+                destination_order,
+                presentation,
+                partition,
+                topic_data,
+                group_data,
+                representation,
+            }
+        }
+    }
+
+    impl SubscriptionBuiltinTopicData {
+        /// Verification hook: construct a value from all of its fields.
+        pub fn verif_new(
+            key: BuiltInTopicKey,
+            participant_key: BuiltInTopicKey,
+            topic_name: &str,
+            type_name: &str,
+            type_information: Option<TypeInformation>,
+            durability: DurabilityQosPolicy,
+            deadline: DeadlineQosPolicy,
+            latency_budget: LatencyBudgetQosPolicy,
+            liveliness: LivelinessQosPolicy,
+            reliability: ReliabilityQosPolicy,
+            ownership: OwnershipQosPolicy,
+            destination_order: DestinationOrderQosPolicy,
+            user_data: UserDataQosPolicy,
+            time_based_filter: TimeBasedFilterQosPolicy,
+            presentation: PresentationQosPolicy,
+            partition: PartitionQosPolicy,
+            topic_data: TopicDataQosPolicy,
+            group_data: GroupDataQosPolicy,
+            representation: DataRepresentationQosPolicy,
+            type_consistency: TypeConsistencyEnforcementQosPolicy,
+        ) -> Self {
+            Self {
+                key,
+                participant_key,
+                topic_name: alloc::string::String::from(topic_name).into(),
+                type_name: alloc::string::String::from(type_name).into(),
+                type_information,
+                durability,
+                deadline,
+                latency_budget,
+                liveliness,
+                reliability,
+                ownership,
+                destination_order,
+                user_data,
+                time_based_filter,
+                presentation,
+                partition,
+                topic_data,
+                group_data,
+                representation,
+                type_consistency,
+            }
+        }
+    }
+}
